@@ -98,7 +98,9 @@ class Buffer:
         A simpy.env.timeout() of duration topsim.common.globals.TIMESTEP
         """
         while True:
-            self.events = []
+            # self.events is emptied by the Monitor once collated. Other
+            # processes (ingest stream, scheduler) add buffer events earlier
+            # in the same timestep, so it must not be reset here.
             if self.env.now % 1000 == 0:
                 LOGGER.debug(
                     "\nHotBuffer: %s \nColdBuffer: %s @ %d",
